@@ -153,7 +153,7 @@ func Ref(neutral, prefix string) string {
 			if end < 0 || end >= len(s) || s[end] != '{' {
 				panic("render: bad GEN marker")
 			}
-			ty := s[i+4 : end-1]
+			ty := strings.ReplaceAll(s[i+4:end-1], "ITER[", "ref.Iter[")
 			b.WriteString("{ return ref.New(func(ʏ *ref.Y[" + ty + "]) {")
 			i = end + 1
 		case strings.HasPrefix(s[i:], "}GEN"):
